@@ -10,7 +10,7 @@ and the validators are proved to compute exactly the fold of `step` over the usa
 order, stopping at the first usage that is not `usage_ok` with VALIDATION_ERROR.  See DESIGN.md / C08."""
 from pyvc.api import (Module, Interface, Method, Iface, Inst, Int, Nat, Bool, Str, Opt, OneOf, Const, Union,
                       ListOf, FixedList, MapOf, Derived, Any_, EnumOf, Custom, new_opaque, assume_pred)
-from contracts.common import implies, iff, forall_range, exists_range, is_opaque, prefix_fold
+from contracts.common import implies, iff, forall_range, exists_range, is_opaque, prefix_fold, forall_keys
 
 from exactly_lib.execution.impl import symbol_validation as sv
 from exactly_lib.execution.impl.single_instruction_executor import (PartialInstructionControlledFailureInfo,
@@ -75,6 +75,13 @@ def step(T, u):
     return T
 
 
+def closed(T):
+    """every symbol of the table refers only to symbols of the table (so that following references never
+    leaves it).  Invariant of validation: a definition enters the table after its references were found in it."""
+    return forall_keys(T, lambda k: forall_range(0, len(T[k].sdv.references),
+                                                 lambda m: T[k].sdv.references[m].name in T))
+
+
 # ------------------------------------------------------------------------------ interfaces (environment)
 
 class FailureI(Interface):
@@ -100,12 +107,13 @@ def _is_satisfied_by(interp, self, args, kwargs):
     """ReferenceRestrictions.is_satisfied_by(symbol_table, symbol_name, container): environment.
     Assumed: a deterministic function of the restriction, the table contents and the name (ghost SAT),
     which does not change the table.  For the restriction classes of the repository this is proved below.
-    Obligation at every call site: the container passed is the one the table holds for that name."""
+    Obligation at every call site: the container passed is the one the table holds for that name, and the table
+    is closed under references (what the implementations need to follow indirect references)."""
     table, name, container = (list(args) + [kwargs[k] for k in ('symbol_table', 'symbol_name', 'container')
                                             if k in kwargs])[:3]
     st = interp.st
     pre = interp.truth(interp.call(_asked_about_own_entry, [table, name, container], {}))
-    st.oblige('%s : requires of is_satisfied_by (container is the table entry of the name)'
+    st.oblige('%s : requires of is_satisfied_by (container is the table entry of the name; the table is closed)'
               % interp.current_function_name(), pre, {'kind': 'callee-pre'})
     st.assume(pre)
     r = Opt(Iface(FailureI)).make(interp, 'failure')
@@ -114,7 +122,7 @@ def _is_satisfied_by(interp, self, args, kwargs):
 
 
 def _asked_about_own_entry(table, name, container):
-    return table.contains(name) and table.lookup(name) is container
+    return table.contains(name) and table.lookup(name) is container and closed(view(table))
 
 
 def _sat_result(restrictions, table, name, r):
@@ -247,14 +255,14 @@ M.trust('symbol.err_msg.error_messages.duplicate_symbol_definition / undefined_s
 RESULT = Opt(FAILURE_INFO)
 
 M.contract(P_SV + ':_validate_reference', params=dict(symbol_reference=REFERENCE, symbols=TABLE),
-           requires=lambda symbol_reference, symbols: symbol_reference.name in view(symbols),
+           requires=lambda symbol_reference, symbols: symbol_reference.name in view(symbols) and closed(view(symbols)),
            returns=Opt(Any_),
            ensures={'none-iff-restriction-satisfied': lambda symbol_reference, symbols, result:
            iff(result is None, sat(symbol_reference.restrictions, view(symbols), symbol_reference.name))},
            raises_only=())
 
 M.contract(P_SV + ':_validate_symbol_reference', params=dict(symbol_table=TABLE, reference=REFERENCE),
-           returns=RESULT,
+           requires=lambda symbol_table: closed(view(symbol_table)), returns=RESULT,
            ensures={
                'accepted-iff-defined-and-satisfied': lambda symbol_table, reference, result:
                iff(result is None, ref_ok(reference, view(symbol_table))),
@@ -262,8 +270,10 @@ M.contract(P_SV + ':_validate_symbol_reference', params=dict(symbol_table=TABLE,
            }, raises_only=())
 
 M.contract(P_SV + ':_validate_symbol_definition', params=dict(symbol_table=TABLE, definition=DEFINITION),
+           requires=lambda symbol_table: closed(view(symbol_table)),
            returns=RESULT, modifies=('symbol_table',), old=lambda symbol_table: dict(view(symbol_table)),
            ensures={
+               'the table stays closed under references': lambda symbol_table: closed(view(symbol_table)),
                'accepted-iff-new-name-and-references-ok': lambda definition, result, old:
                iff(result is None, def_ok(definition, old)),
                'failure-is-validation-error': lambda result: result is None or result.status is VALIDATION_ERROR,
@@ -281,8 +291,10 @@ M.loop(P_SV + ':_validate_symbol_definition', 0,
        modifies=dict(referenced_value='local', failure_info='local', symbol_table='in-place'))
 
 M.contract(P_SV + ':validate_symbol_usage', params=dict(usage=USAGE, symbol_table=TABLE),
+           requires=lambda symbol_table: closed(view(symbol_table)),
            returns=RESULT, modifies=('symbol_table',), old=lambda symbol_table: dict(view(symbol_table)),
            ensures={
+               'the table stays closed under references': lambda symbol_table: closed(view(symbol_table)),
                'accepted-iff-ok': lambda usage, result, old: iff(result is None, usage_ok(usage, old)),
                'failure-is-validation-error': lambda result: result is None or result.status is VALIDATION_ERROR,
                'table: accepted => step; rejected => unchanged': lambda symbol_table, usage, result, old:
@@ -313,8 +325,10 @@ def rejected(T0, usages, T):
 
 
 M.contract(P_SV + ':validate_symbol_usages', params=dict(symbol_usages=ListOf(USAGE), symbols=TABLE),
+           requires=lambda symbols: closed(view(symbols)),
            returns=RESULT, modifies=('symbols',), old=lambda symbols: dict(view(symbols)),
            ensures={
+               'the table stays closed under references': lambda symbols: closed(view(symbols)),
                'accepted: every usage is ok in the table at its position; the table is the fold':
                    lambda symbol_usages, symbols, result, old:
                    implies(result is None, accepted(old, symbol_usages, view(symbols))),
@@ -326,7 +340,7 @@ M.contract(P_SV + ':validate_symbol_usages', params=dict(symbol_usages=ListOf(US
 
 M.loop(P_SV + ':validate_symbol_usages', 0,
        invariant=lambda _i, symbol_usages, symbols, old:
-       view(symbols) == state(old, symbol_usages, _i)
+       view(symbols) == state(old, symbol_usages, _i) and closed(view(symbols))
        and forall_range(0, _i, lambda j: usage_ok(symbol_usages[j], state(old, symbol_usages, j))),
        modifies=dict(symbol_usage='local', result='local', symbols='in-place'))
 
@@ -362,8 +376,10 @@ def table_of(executor):
 
 
 M.contract(P_PSV + ':ValidateSymbolsExecutor.apply', params=dict(self=EXECUTOR, symbol_user=SYMBOL_USER),
+           requires=lambda self: closed(view(table_of(self))),
            returns=RESULT, modifies=('self',), old=lambda self: dict(view(table_of(self))),
            ensures={
+               'the table stays closed under references': lambda self: closed(view(table_of(self))),
                'accepted: every usage of the instruction is ok in the shared table at its position':
                    lambda self, symbol_user, result, old:
                    implies(result is None, accepted(old, symbol_user.symbol_usages(), view(table_of(self)))),
@@ -389,7 +405,10 @@ M.contract(P_PSV + ':SymbolsValidator.__init__',
            params=dict(self=Inst(psv.SymbolsValidator), initial_symbols=TABLE, test_case=PHASES,
                        action_to_check=SYMBOL_USER, mk_atc_failure_con=Iface(FailureConstructorFactoryI)),
            inline=True,
+           # the predefined symbols are closed under references (check `builtin-symbols-closed`)
+           requires=lambda initial_symbols: closed(view(initial_symbols)),
            ensures={
+               'closed under references': lambda self: closed(view(self._symbols)),
                'starts as a copy of the predefined symbols': lambda self, initial_symbols:
                view(self._symbols) == view(initial_symbols) and self._symbols is not initial_symbols
                and view(self._symbols) is not view(initial_symbols),
@@ -401,6 +420,9 @@ M.contract(P_PSV + ':SymbolsValidator.__init__',
 # first failure.  The event records (step, executor, phase).
 M.contract('exactly_lib.execution.impl.phase_step_execution:run_instructions_phase_step', trusted=True,
            params=dict(step=Any_, instruction_executor=EXECUTOR, phase_contents=Iface(SectionContentsI)),
+           # closedness: what every `apply` requires and re-establishes (proved above)
+           requires=lambda instruction_executor: closed(view(table_of(instruction_executor))),
+           ensures={'closed': lambda instruction_executor: closed(view(table_of(instruction_executor)))},
            modifies=('instruction_executor',), may_raise=(PhaseStepFailureException,), event='phase',
            event_on_raise='raised')
 M.trust('execution.impl.phase_step_execution.run_instructions_phase_step applies the given executor to each '
@@ -416,7 +438,12 @@ def _mk_validator(interp, name):
     e = object.__new__(psv.ValidateSymbolsExecutor)
     e._ValidateSymbolsExecutor__symbols = v._symbols
     v._validation_executor = e
+    assume_pred(interp, _validator_invariant, v)      # established by __init__ (proved), kept by every step
     return v
+
+
+def _validator_invariant(v):
+    return closed(view(v._symbols))
 
 
 VALIDATOR = Custom(_mk_validator)
@@ -424,7 +451,8 @@ VALIDATOR = Custom(_mk_validator)
 M.contract(P_PSV + ':SymbolsValidator._validate',
            params=dict(self=VALIDATOR, step=Any_, phase_contents=Iface(SectionContentsI)), inline=True,
            modifies=('self',), may_raise=(PhaseStepFailureException,),
-           ensures={'the shared executor on this phase': lambda self, step, phase_contents, trace:
+           ensures={'closed': lambda self: _validator_invariant(self),
+                    'the shared executor on this phase': lambda self, step, phase_contents, trace:
            len(trace) == 1 and trace[0][0] == 'phase' and trace[0][1]['instruction_executor'] is self._validation_executor
            and trace[0][1]['phase_contents'] is phase_contents and trace[0][1]['step'] is step},
            raises_only=())
@@ -437,7 +465,8 @@ M.contract(P_PSV + ':SymbolsValidator._validate_atc', params=dict(self=VALIDATOR
                exc.failure.status is ExecutionFailureStatus.VALIDATION_ERROR
                and rejected(old, self._action_to_check.symbol_usages(), view(self._symbols))}},
            ensures={'accepted: the usages of the action to check are ok in the shared table': lambda self, old:
-           accepted(old, self._action_to_check.symbol_usages(), view(self._symbols))},
+           accepted(old, self._action_to_check.symbol_usages(), view(self._symbols)),
+                    'closed': lambda self: _validator_invariant(self)},
            raises_only=())
 
 _ORDER = (phase_step.SETUP__VALIDATE_SYMBOLS, 'act', phase_step.BEFORE_ASSERT__VALIDATE_SYMBOLS,
@@ -472,7 +501,8 @@ M.contract(P_PSV + ':SymbolsValidator.validate', params=dict(self=VALIDATOR), mo
                and all(e[0] != 'raised' for e in trace[:-1])
                and _is_prefix_of_execution_order(self, trace[:-1])}},
            ensures={'all five phases, in execution order, with the one shared table; none of them failed':
-                    lambda self, trace: len(trace) == 5 and _is_prefix_of_execution_order(self, trace)},
+                    lambda self, trace: len(trace) == 5 and _is_prefix_of_execution_order(self, trace),
+                    'closed': lambda self: _validator_invariant(self)},
            raises_only=())
 
 
@@ -607,13 +637,6 @@ def vsat(restriction, T, name):
 
 
 @recursive
-def closed_refs(T, refs):
-    """every symbol reachable through the references is in the table"""
-    return forall_range(0, len(refs), lambda m: refs[m].name in T
-                                                and closed_refs(T, T[refs[m].name].sdv.references))
-
-
-@recursive
 def all_reachable_ok(indirect, T, refs):
     """every symbol reachable through the references satisfies the indirect restriction"""
     return forall_range(0, len(refs), lambda m: refs[m].name in T and vsat(indirect, T, refs[m].name)
@@ -625,14 +648,15 @@ DIRECT_AND_INDIRECT = Inst(rr.ReferenceRestrictionsOnDirectAndIndirect, _direct=
 DIRECT_AND_SOME_INDIRECT = Inst(rr.ReferenceRestrictionsOnDirectAndIndirect, _direct=VALUE_RESTRICTION,
                                 _indirect=VALUE_RESTRICTION, _meaning_of_failure_of_indirect_reference=Any_)
 
-M.assume('tables handed to is_satisfied_by are closed under references (closed_refs): a definition enters the '
-         'validation table only after each of its references was found in it (def_ok, proved) and tables only grow '
-         '(step, proved); monotonicity of closed_refs in the table needs induction and is not proved')
+def _all_in(T, refs):
+    return forall_range(0, len(refs), lambda m: refs[m].name in T)
+
 
 M.contract(P_RR + ':ReferenceRestrictionsOnDirectAndIndirect._check_indirect',
            params=dict(self=DIRECT_AND_SOME_INDIRECT, symbol_table=TABLE, path_to_referring_symbol=ListOf(Str),
                        references=ListOf(REFERENCE)),
-           requires=lambda symbol_table, references: closed_refs(view(symbol_table), references),
+           requires=lambda symbol_table, references:
+           closed(view(symbol_table)) and _all_in(view(symbol_table), references),
            returns=Opt(Any_),
            ensures={'none iff every reachable symbol satisfies the indirect restriction':
                     lambda self, symbol_table, references, result:
@@ -649,7 +673,8 @@ M.loop(P_RR + ':ReferenceRestrictionsOnDirectAndIndirect._check_indirect', 0,
 
 M.contract(P_RR + ':ReferenceRestrictionsOnDirectAndIndirect.check_indirect',
            params=dict(self=DIRECT_AND_SOME_INDIRECT, symbol_table=TABLE, references=ListOf(REFERENCE)),
-           requires=lambda symbol_table, references: closed_refs(view(symbol_table), references),
+           requires=lambda symbol_table, references:
+           closed(view(symbol_table)) and _all_in(view(symbol_table), references),
            returns=Opt(Any_),
            ensures={'none iff every reachable symbol satisfies the indirect restriction':
                     lambda self, symbol_table, references, result:
@@ -659,8 +684,7 @@ M.contract(P_RR + ':ReferenceRestrictionsOnDirectAndIndirect.check_indirect',
 M.contract(P_RR + ':ReferenceRestrictionsOnDirectAndIndirect.is_satisfied_by',
            params=dict(self=DIRECT_AND_INDIRECT, symbol_table=TABLE, symbol_name=Str, container=CONTAINER),
            requires=lambda symbol_table, symbol_name, container:
-           _asked_about_own_entry(symbol_table, symbol_name, container)
-           and closed_refs(view(symbol_table), container.sdv.references),
+           _asked_about_own_entry(symbol_table, symbol_name, container),
            returns=Opt(Any_),
            ensures={'satisfied iff direct restriction on the symbol and indirect restriction on all it is built from':
                     lambda self, symbol_table, symbol_name, container, result:
@@ -1086,3 +1110,13 @@ M.contract(P_RR + ':is_string__all_indirect_refs_are_strings', params=dict(meani
            and tuple(result.direct._accepted) == (ValueType.STRING,)
            and tuple(result.indirect._accepted) == (ValueType.STRING,)},
            raises_only=())
+
+
+@M.check('builtin-symbols-closed')
+def _builtin_symbols_closed(ctx):
+    """The predefined symbols of the program satisfy the precondition of SymbolsValidator: closed under references."""
+    from exactly_lib.cli_default.program_modes.test_case import builtin_symbols
+    table = {b.name: b.container for b in builtin_symbols.ALL}
+    ctx.obligation('the builtin symbols are closed under references (%d symbols)' % len(table), closed(table),
+                   'enumeration', detail={'names': sorted(table)})
+    ctx.obligation('builtin symbol names are distinct', len(table) == len(builtin_symbols.ALL), 'enumeration')
